@@ -11,6 +11,7 @@ INVARIANT Packrat
 INVARIANT PackratBound
 INVARIANT CountSound
 INVARIANT RealFailure
+INVARIANT NoSentinel
 INVARIANT FurthestFail
 INVARIANT Balanced
 INVARIANT Replay
